@@ -41,6 +41,10 @@ def case_strategy(draw, tier="quick"):
             # how the caller spells the window: a row count may be a numpy integer, a span a
             # pandas Timedelta
             "spell": draw(st.sampled_from(["plain", "plain", "typed"]))}
+    # element-wise arithmetic on the selected window column(s) before aggregating; the reflected
+    # forms (number on the left) are not commutative
+    expr["arith"] = draw(st.sampled_from([None, None, None, "5-w", "w-5", "w*2", "w+w"])) \
+        if not group and expr["agg"] not in ("value_counts", "full", "apply_median") else None
     if expr["agg"] == "value_counts":
         expr["base"] = draw(st.sampled_from(["y", "g"]))
     if expr["agg"] in ("var", "std") and expr["base"] == "xy" and not group:
@@ -94,11 +98,24 @@ def stream_expr(sdf, expr):
         return (w[["x", "y"]] if expr["base"] == "xy" else w[expr["base"]]).full()
     if expr["agg"] == "apply_median":
         return w[expr["base"]].apply(_median)
-    sel = w[["x", "y"]] if expr["base"] == "xy" else w[expr["base"]]
+    sel = arith(w[["x", "y"]] if expr["base"] == "xy" else w[expr["base"]], expr)
     a = expr["agg"]
     if a == "size":
         return sel.size
     return getattr(sel, a)(**ddof(expr))
+
+
+def arith(sel, expr):
+    a = expr.get("arith")
+    if a == "5-w":
+        return 5 - sel
+    if a == "w-5":
+        return sel - 5
+    if a == "w*2":
+        return sel * 2
+    if a == "w+w":
+        return sel + sel
+    return sel
 
 
 def _median(frame):
@@ -114,7 +131,7 @@ def pandas_expr(df, expr):
         gb = df.groupby("g") if expr["group"] == "col" else df.groupby(df.g)
         sel = {"xy": ["x", "y"], "x": "x", "y": "y"}[expr["base"]]
         return getattr(gb[sel], expr["agg"])(**ddof(expr))
-    sel = df[["x", "y"]] if expr["base"] == "xy" else df[expr["base"]]
+    sel = arith(df[["x", "y"]] if expr["base"] == "xy" else df[expr["base"]], expr)
     a = expr["agg"]
     if a == "size":
         return sel.size
